@@ -1,6 +1,8 @@
 package keeper
 
 import (
+	"bytes"
+
 	gogotypes "github.com/gogo/protobuf/types"
 
 	sdk "github.com/cosmos/cosmos-sdk/types"
@@ -65,6 +67,12 @@ func (k Keeper) GetEarnedFees(ctx sdk.Context, provider sdk.AccAddress) (fees sd
 	for ; iterator.Valid(); iterator.Next() {
 		var balance sdk.Coin
 		k.cdc.MustUnmarshalBinaryBare(iterator.Value(), &balance)
+
+		// the subspace is a raw prefix which also matches the records of the providers whose address extends this one
+		if !bytes.Equal(iterator.Key(), types.GetEarnedFeesKey(provider, balance.Denom)) {
+			continue
+		}
+
 		fees = fees.Add(balance)
 	}
 
@@ -77,6 +85,13 @@ func (k Keeper) DeleteEarnedFees(ctx sdk.Context, provider sdk.AccAddress) {
 	iterator := sdk.KVStorePrefixIterator(store, types.GetEarnedFeesSubspace(provider))
 
 	for ; iterator.Valid(); iterator.Next() {
+		var balance sdk.Coin
+		k.cdc.MustUnmarshalBinaryBare(iterator.Value(), &balance)
+
+		if !bytes.Equal(iterator.Key(), types.GetEarnedFeesKey(provider, balance.Denom)) {
+			continue
+		}
+
 		store.Delete(iterator.Key())
 	}
 }
